@@ -1385,6 +1385,13 @@ fn is_compatible(a_id: usize, b_id: usize, program: &Program) -> bool {
         (Type::Integer, Type::Integer) => true,
         (Type::Binary, Type::Binary) => true,
         (Type::Tuple(id1), Type::Tuple(id2)) => id1 == id2,
+        // A recursive union must be compared whole: taken out of it, a variant's back reference
+        // points nowhere and is waved through.
+        (Type::Union(_), _)
+            if super::narrowing::contains_cycle(a_id, program, &mut Vec::new()) =>
+        {
+            quiver_core::types::is_compatible(a_id, b_id, program)
+        }
         (Type::Union(ids), _) => ids.iter().all(|&id| is_compatible(id, b_id, program)),
         (_, Type::Union(ids)) => ids.iter().any(|&id| is_compatible(a_id, id, program)),
         // For partial compatibility, use the full is_compatible from types module
